@@ -40,6 +40,11 @@ CHECKS["C02"] = dict(cat=MC, engine="E2 xseq (all rule lists x request grid thro
    text="Every rule list up to length 3 (thorough: 4) over {no filter, two request-dependent filters, a filter that fails to evaluate} x {A,B,deny}, for 12 (thorough 96) requests and two upstream feature sets, is installed with the real set_rules and decided by the real process_request; exactly the predicted recorder is contacted once (or none), the recorded connector matches, refusal runs on_error only and no payload byte reaches an origin. All request attributes and cidr_match (every prefix length, network boundaries, both families) are compared with the connection's values / bit-mask containment.",
    note="Trusts: the 6-line reference and recorder connectors. Not covered: lists longer than 4; filters beyond the 4 classes (C08); real connectors' feature sets (C17 covers the balancer).",
    ref="DESIGN.md §3 C02")
+CHECKS["C14"] = dict(cat=MC, engine="E1 xsched (deviation-bounded DFS over schedules of the real futures, scripted endpoints, paused tokio clock)",
+   technique="stateless exhaustive exploration (DFS with replay, preemption/deviation bound 2, thorough 3) of all schedules of real handshake / API-handler / process_request / GC futures with a client stalled after k bytes for every k; deadlock/wedge oracle at every terminal state",
+   text="For every stall offset k of an HTTP-style client, every API handler (live, history, rules GET/POST, metrics, logrotate, status), a complete fresh connection (create_context, handshake, routing, relay, finish), optionally a second stalled client, a request whose upstream never answers and the GC, every schedule within the deviation bound is executed on the real code; at quiescence only the stalled peers' own futures may remain blocked and the API call and the fresh connection must have been served.",
+   note="Trusts: the explorer's ownership of scheduling (replays compared; HashMap-order divergences retried). Handshake-phase writes are always accepted. Real-socket accept paths (SOCKS, QUIC) are not reachable in memory.",
+   ref="DESIGN.md §3 C14")
 NOT_YET = "check not built yet in this revision (see DESIGN.md §3 for the planned model-checking design)"
 def main():
     checks = []
@@ -73,7 +78,7 @@ def main():
             "add_only": True,
         },
         "engines": [
-            {"name": "E1 xsched", "path": "harness/src/verif/xsched.rs", "serves_properties": [], "kind_free_text": "stateless deviation-bounded DFS over task schedules and scripted environment answers of real async code"},
+            {"name": "E1 xsched", "path": "harness/src/verif/xsched.rs", "serves_properties": ["C14"], "kind_free_text": "stateless deviation-bounded DFS over task schedules and scripted environment answers of real async code"},
             {"name": "E2 xseq", "path": "harness/src/verif/", "serves_properties": [p for p in CHECKS], "kind_free_text": "bounded-exhaustive operation-sequence / input-shape enumeration on the real code vs reference model"},
         ],
         "checks": checks,
